@@ -89,7 +89,7 @@ TABLE = {
     "C04": ("Netcode payloads: only authentic ones surface, each at most once", [
         ("Proofs/ReplayP.v", ["replay_at_most_once", "replay_fresh_accepted", "replay_old_rejected", "replay_inv_init", "replay_inv_step", "accepted_stays_received"]),
         ("Proofs/NPacketP.v", ["decode_sound", "decode_duplicate", "decode_replay_rejected", "decode_keeps_replay_unless_opened"]),
-        ("Proofs/NClientP.v", ["client_payload_only_connected"]),
+        ("Proofs/NClientP.v", ["client_payload_only_connected", "client_replay_is_noop"]),
         ("Proofs/NAuthP.v", ["payload_only_authentic", "session_payloads_once", "payload_implies_valid_request", "replayed_is_noop"]),
     ], ""),
     "C05": ("Only a valid, unexpired, untampered token from its own address connects", [
@@ -100,7 +100,7 @@ TABLE = {
         ("Proofs/TokenP.v", ["token_read_no_panic", "private_decode_no_panic"]),
         ("Proofs/NServerP.v", ["process_packet_no_panic", "update_client_no_panic", "nserver_disconnect_no_panic", "generate_payload_no_panic", "nsstep_no_panic", "time_since_no_panic"]),
         ("Proofs/NAuthP.v", ["inauthentic_is_noop", "unvalidated_request_is_noop", "request_from_connected_ignored", "replayed_is_noop", "replayed_is_noop_pending"]),
-        ("Proofs/NClientP.v", ["client_no_panic", "client_inauthentic_is_noop"]),
+        ("Proofs/NClientP.v", ["client_inv_init", "client_no_panic", "client_run_safe", "client_reachable_safe", "client_inauthentic_is_noop", "client_unsealed_is_noop_or_window", "client_ignores_requests", "client_replay_is_noop"]),
     ], ""),
     "C10": ("Netcode connection table: unique ids, unique addresses, bounded", [
         ("Proofs/NServerP.v", ["table_inv_init", "table_inv_step", "table_inv_run", "lookup_unique", "events_matched", "slots_bound", "connected_bound_run", "full_server_refuses"]),
@@ -110,10 +110,10 @@ TABLE = {
         ("Proofs/NPacketP.v", ["decode_sound", "dgram_parts_injective", "aead_input_injective"]),
         ("Proofs/TokenP.v", ["private_decode_sound", "token_aad_inj"]),
         ("Proofs/NServerP.v", ["server_seals_with", "global_seq_ge_init_run", "global_seq_never_reused", "conn_seqs_contiguous", "conn_dgram_seqs_distinct"]),
-        ("Proofs/NClientP.v", ["client_sequence_increases"]),
+        ("Proofs/NClientP.v", ["client_sequence_increases", "disconnected_emits_nothing", "disconnected_frame"]),
     ], ""),
     "C18": ("Netcode liveness", [
-        ("Proofs/NClientP.v", ["client_retries", "client_failover", "client_times_out"]),
+        ("Proofs/NClientP.v", ["client_retries", "client_rate_limited", "client_failover", "client_failover_exhausted", "client_times_out", "client_stays_alive", "client_token_expiry", "client_accepts_challenge", "client_accepts_keepalive", "client_denied", "client_server_disconnect"]),
         ("Proofs/NServerP.v", ["server_times_out_silent", "server_keeps_live", "pending_expires", "response_connects"]),
         ("Proofs/NAuthP.v", ["request_gets_challenge", "handshake_connects"]),
     ], ""),
@@ -182,26 +182,37 @@ def main():
         lines = [f"(* {pid} - {title}", "   GENERATED by tools/mkprops.py, then committed: this file pins the statements.",
                  "   Nothing but `Theorem`, `exact`, `Print Assumptions`. The proofs live in Proofs/. *)"]
         imps, body, count, missing = [], [], 0, []
-        for path, lemmas in groups:
+        seen_names = set()
+        for gi, (path, lemmas) in enumerate(groups):
             if not os.path.exists(os.path.join(COQ, path)):
                 missing.append(path)
                 continue
             mod = path[:-2].split("/")[-1]
-            for i in imports_of(path):
-                if i not in imps:
-                    imps.append(i)
-            imps.append(f"From RenetV Require Import {mod}.")
+            gimps = []
+            for line in list(imports_of(path)) + [f"From RenetV Require Import {mod}."]:
+                m = re.match(r"((?:From\s+\S+\s+)?)Require\s+(?:Import|Export)\s+(.*)\.\s*$", line, re.S)
+                if not m:
+                    continue
+                names = m.group(2).split()
+                req = f"{m.group(1)}Require {' '.join(names)}."
+                if req not in imps:
+                    imps.append(req)
+                gimps.append("Import " + " ".join(names) + ".")
+            gbody = []
             for lem in lemmas:
                 st = statement_of(path, lem)
                 if st is None:
                     missing.append(f"{path}:{lem}")
                     continue
                 name = f"{pid}_{lem}"
-                if any(name in b for b in body):
+                if name in seen_names:
                     continue
-                # binders before the colon are kept as they are
-                body.append(f"Theorem {name} {st}.\nProof. exact {binder_free(mod + '.' + lem, st)}. Qed.\nPrint Assumptions {name}.\n")
+                seen_names.add(name)
+                gbody.append(f"Theorem {name} {st}.\nProof. exact {binder_free(mod + '.' + lem, st)}. Qed.\nPrint Assumptions {name}.\n")
                 count += 1
+            if gbody:
+                # each group in its own module: names resolve exactly as in the proof file the statements come from
+                body.append(f"Module From_{mod}_{gi}.\n" + "\n".join(gimps) + "\nOpen Scope N_scope.\n\n" + "\n".join(gbody) + f"End From_{mod}_{gi}.\n")
         if note:
             lines.append(f"(* {note} *)")
         if missing:
@@ -211,7 +222,7 @@ def main():
             if i not in seen:
                 seen.add(i)
                 uimps.append(i)
-        text = "\n".join(lines) + "\n" + "\n".join(uimps) + "\nOpen Scope N_scope.\n\n" + "\n".join(body)
+        text = "\n".join(lines) + "\n" + "\n".join(imps) + "\n\n" + "\n".join(body)
         if count == 0:
             continue
         with open(os.path.join(COQ, "Props", pid + ".v"), "w") as f:
